@@ -44,6 +44,17 @@ def check(ctx):
     ok = len(red) == 1 and len(loops) == 1 and dominates(vi, red[0][0], loops[0])
     ctx.ob("ORD.vindex.reduce-before-bounds", vi, "x = x[nonfancy_indexes] dominates the loop that normalises negative / checks out-of-range points against x.shape", ok, "" if ok else "points are wrapped and range-checked against the un-sliced extent: negative points select the wrong element when the same call also slices that axis' neighbours")
     take_rules(ctx)
+    # ---------------- normalize_slice: with a negative step, a start clamped to -1 by slice.indices means "nothing"
+    ns = ctx.model.module("dask/array/slicing.py").func("normalize_slice")
+    import ast as _ast2
+    neg = [n for n in _ast2.walk(ns) if isinstance(n, _ast2.If) and eqv(n.test, "start < 0")]
+    ok = len(neg) == 1 and any(isinstance(s, _ast2.Return) and eqv(s.value, "slice(0, 0, step)") for s in neg[0].body)
+    if ok:
+        from ..cfg import cfg_of as _cfg
+        facts = [(unparse(e), pol) for e, pol in _cfg(ns).facts(neg[0])]
+        later = [n for n in _ast2.walk(ns) if isinstance(n, _ast2.If) and eqv(n.test, "start >= dim - 1")]
+        ok = ("step < 0", True) in facts and len(later) == 1 and dominates(ns, neg[0], later[0])
+    ctx.ob("ALG.normalize-slice.before-start", ns, "step < 0 and start < 0 (clamped by slice.indices): the empty slice slice(0, 0, step) is returned before start is interpreted", ok, "" if ok else "the clamped start -1 is kept as a literal: x[-n-2:-n-1:-2] selects the last element instead of nothing")
 
 
 def take_rules(ctx):
